@@ -116,7 +116,7 @@ def project_run(cp, group, texts, members_cases, records, rec, calls, method, ra
         started = i < len(rec.members)
         expdir = idents[i] if idents[i] else str(i)
         mdir = os.path.join(run_dir, expdir) if run_dir else None
-        proj = pharness.project_member(mdir) if (mdir and os.path.isdir(mdir)) else {"files": None}
+        proj = pharness.project_member(mdir, cp.delimiter, cp.quotechar) if (mdir and os.path.isdir(mdir)) else {"files": None}
         if started:
             p = rec.members[i]["p"]
             events = rec.members[i]["events"]
